@@ -79,6 +79,40 @@ CEX = [
 ]
 
 
+def family_scripts(quick):
+    """Directed histories along the code's boundaries that random schedules reach rarely: the same
+    height failing k times in a row with every back-off elapsing in between (k runs across the
+    length of the back-off table, defaultBackoffMaxRetryCount = 4, and beyond), optionally with a
+    graceful stop or a crash in the middle; and recent jobs piling up to the 2*Conc limit on
+    consecutive heads."""
+    out = []
+    def S(op, a=0, b=0):
+        return {"op": op, "a": a, "b": b}
+    for k in range(1, 8):
+        for mid in ("", "stop", "crash"):
+            if quick and mid and k not in (3, 6):
+                continue
+            st = [S("init", 2), S("start"), S("step", 1, "fail"), S("step", 1, "ok"), S("deliver", 1), S("poke")]
+            jid = 1
+            for i in range(2, k + 1):
+                if mid and i == (k + 2) // 2:
+                    st += [S(mid), S("start")]
+                    jid = 0
+                jid += 1
+                st += [S("expire", 1), S("step", jid, "fail"), S("deliver", jid), S("poke")]
+            out.append({"name": "family-retry-%d%s" % (k, "-" + mid if mid else ""), "range": 2, "conc": 1,
+                        "bg": False, "steps": st, "maxh": 4})
+    # consecutive heads while workers hang: reach and pass the recent-job limit (2*Conc)
+    for conc in (1, 2):
+        st = [S("init", 1), S("start"), S("step", 1, "ok"), S("deliver", 1), S("poke")]
+        for h in range(2, 2 + 2 * conc + 2):
+            st += [S("head", h), S("poke")]
+        out.append({"name": "family-recent-limit-c%d" % conc, "range": 2, "conc": conc, "bg": False, "steps": st, "maxh": 8})
+        st2 = list(st) + [S("stop"), S("start"), S("poke")]
+        out.append({"name": "family-recent-limit-c%d-stop" % conc, "range": 2, "conc": conc, "bg": False, "steps": st2, "maxh": 8})
+    return out
+
+
 def replay(ctx, prop):
     """bin/check <ID> --replay <file>: re-run the recorded script of a violation on the real DASer."""
     obj = json.load(open(ctx.replay))
@@ -186,6 +220,9 @@ def run(ctx, prop):
         for k, h in enumerate(behs):
             scenarios.append(hist_to_scenario("sim%d-%d" % (i, k), h, consts))
     ctx.cover(tlc_scripts=len(scenarios))
+    fam = family_scripts(quick)
+    scenarios += fam
+    ctx.cover(directed_scripts=len(fam))
 
     # ---- 4. the real DASer
     sc_path = os.path.join(ctx.work, "scenarios.json")
